@@ -31,8 +31,10 @@ type FuncVal struct {
 }
 
 type MapIter struct {
-	m  Val
-	mt *types.Map
+	m   Val
+	mt  *types.Map
+	vis *Term // location of the ghost cell holding the set of keys already produced
+	visHeap string
 }
 
 // State maps heap names to their current array term.
@@ -267,6 +269,9 @@ func (cx *Ctx) load(st *State, loc *Term, t types.Type) *Term {
 	if ov, ok := overlayOf(t); ok {
 		return cx.load(st, b.Elem(loc, b.BV(0, 64)), ov)
 	}
+	if isPageSet(t) {
+		return b.Select(st.heap(cx, w.heapName(w.sortOf(t))), loc)
+	}
 	if _, ok := opaqueLE(t); ok {
 		return b.Select(st.heap(cx, w.heapName(w.sortOf(t))), loc)
 	}
@@ -305,6 +310,9 @@ func (cx *Ctx) load(st *State, loc *Term, t types.Type) *Term {
 }
 
 func isLeafType(t types.Type) bool {
+	if isPageSet(t) {
+		return true
+	}
 	if _, ok := opaqueLE(t); ok {
 		return true
 	}
@@ -323,6 +331,11 @@ func (cx *Ctx) store(st *State, loc *Term, t types.Type, v *Term) {
 	w, b := cx.w, cx.w.b
 	if ov, ok := overlayOf(t); ok {
 		cx.store(st, b.Elem(loc, b.BV(0, 64)), ov, v)
+		return
+	}
+	if isPageSet(t) {
+		hn := w.heapName(w.sortOf(t))
+		st.set(hn, b.Name(hn, b.Store(st.heap(cx, hn), loc, v)))
 		return
 	}
 	if _, ok := opaqueLE(t); !ok {
@@ -603,6 +616,9 @@ func (cx *Ctx) notFuture(v *Term) *Term {
 // typeInv returns the invariant every value of Go type t satisfies.
 func (cx *Ctx) typeInv(v *Term, t types.Type) *Term {
 	w, b := cx.w, cx.w.b
+	if isPageSet(t) {
+		return b.True()
+	}
 	if _, ok := opaqueLE(t); ok {
 		return b.True()
 	}
@@ -727,6 +743,17 @@ func (cx *Ctx) preserved(cur, old *State) *Term {
 		cs = append(cs, b.Forall([]BoundVar{{nm, SLoc}}, b.Or(ex...)))
 	}
 	return b.And(cs...)
+}
+
+// setComprehension returns a set s of page ids with s[p] <=> body(p), introduced
+// by a definitional axiom (pattern: membership in s).
+func (cx *Ctx) setComprehension(body func(p *Term) *Term) *Term {
+	b := cx.w.b
+	s := b.Const("set", SArray(SBV(64), SBool))
+	pn := fmt.Sprintf("p?%d", cx.nextBound())
+	p := b.BVar(pn, SBV(64))
+	cx.assume(b.Forall([]BoundVar{{pn, SBV(64)}}, b.Eq(b.Select(s, p), body(p)), b.Select(s, p)))
+	return s
 }
 
 func (cx *Ctx) isFreshLoc(v Val) *Term {
